@@ -414,7 +414,7 @@ LI = [0, 1, -1, 2, 3, 2047, 2048, -2048, -2049, 2147483647, -2147483648, 4096, 1
 BASE = 0x20000
 
 
-def gen_snippet(rng):
+def gen_snippet(rng, callee=False):
     L = []
     k = [0]
 
@@ -491,6 +491,26 @@ def gen_snippet(rng):
             b = a if rng.random() < 0.3 else rng.choice(pool)
             L.append(f"  {v} = riscv.{op}.{p} {a}, {b} : (!riscv.freg, !riscv.freg) -> !riscv.freg")
             pool.append(v)
+    if callee:
+        # values pre-assigned to callee-saved registers (integer sN and float fsM, often with N == M: the two
+        # register files share index numbers), kept alive by a store: riscv-prologue-epilogue-insertion has to
+        # save and restore every one of them
+        ns = rng.sample(range(12), rng.choice([1, 2, 3]))
+        for j, n in enumerate(ns):
+            m = n if rng.random() < 0.7 else rng.randrange(12)
+            order = [("i", n), ("f", m)]
+            if rng.random() < 0.5:
+                order.reverse()
+            for kind, q in order:
+                if rng.random() < 0.15:
+                    continue
+                v = fresh("cs")
+                if kind == "i":
+                    L.append(f"  {v} = riscv.mv {rng.choice(ints)} : (!riscv.reg) -> !riscv.reg<s{q}>")
+                    L.append(f"  riscv.sw %p, {v}, {16 * j} : (!riscv.reg, !riscv.reg<s{q}>) -> ()")
+                else:
+                    L.append(f"  {v} = riscv.fmv.d {rng.choice(dbl)} : (!riscv.freg) -> !riscv.freg<fs{q}>")
+                    L.append(f"  riscv.fsd %p, {v}, {16 * j + 8} : (!riscv.reg, !riscv.freg<fs{q}>) -> ()")
     L.append(f"  %r = riscv.mv {rng.choice(ints)} : (!riscv.reg) -> !riscv.reg<a0>")
     L.append(f"  %fr = riscv.fmv.d {rng.choice(dbl)} : (!riscv.freg) -> !riscv.freg<fa0>")
     L.append(f"  %fs = riscv.fmv.s {rng.choice(sgl)} : (!riscv.freg) -> !riscv.freg<fa1>")
@@ -513,7 +533,8 @@ def run_part2(job, res):
         mem0[a] = rngm.getrandbits(8)
     for seed in job["seeds"]:
         rng = random.Random(seed ^ 0x5EED)
-        text = gen_snippet(rng)
+        callee = seed % 3 == 0
+        text = gen_snippet(rng, callee)
         res["evaluations"] += 1
         try:
             asm_a = compile_riscv(text, ["riscv-allocate-registers"], passes, corpus, Parser, targets)
@@ -532,6 +553,16 @@ def run_part2(job, res):
             res["sets"].setdefault("snippet_failures", set()).add("canon:" + type(e).__name__)
             continue
         C["snippets_compiled"] += 1
+        asm_c = None
+        if callee:
+            try:
+                asm_c = compile_riscv(text, ["riscv-allocate-registers", "riscv-prologue-epilogue-insertion"], passes, corpus, Parser, targets)
+                C["callee_saved_snippets_compiled"] += 1
+            except (KeyboardInterrupt, SystemExit, MemoryError):
+                raise
+            except BaseException as e:  # noqa: BLE001
+                C["snippet_prologue_failed"] += 1
+                res["sets"].setdefault("snippet_failures", set()).add("prologue:" + type(e).__name__)
         norm = lambda s: [ln.strip() for ln in s.splitlines()]  # noqa: E731
         changed = norm(asm_a) != norm(asm_b)
         if changed:
@@ -552,6 +583,30 @@ def run_part2(job, res):
                 except rvsim.Bad as b:
                     outs.append(("bad", "".join(ch for ch in str(b) if not ch.isdigit())[:60]))
             C["snippet_executions_compared"] += 1
+            if asm_c is not None and outs[0][0] == "ok":
+                # ABI oracle on the snippet with prologue/epilogue: same results and memory as without, and every
+                # callee-saved register and sp restored
+                try:
+                    r = rvsim.run(asm_c, "main", iargs, fargs, xlen=32, mem=mem0)
+                    data = {k: v for k, v in r.mem.items() if BASE - 5000 <= k <= BASE + 5000}
+                    oc = ("ok", r.a[0], r.fa[0], r.fa[1], tuple(sorted(data.items())))
+                    badregs = sorted(k for k, v in r.callee_ok.items() if not v)
+                except rvsim.Bad as b:
+                    oc, badregs = ("bad", "".join(ch for ch in str(b) if not ch.isdigit())[:60]), []
+                C["callee_saved_executions_checked"] += 1
+                keyc = None
+                if oc[0] == "bad":
+                    keyc, why = "prologue-epilogue:bad-asm:" + oc[1], oc[1]
+                elif badregs:
+                    keyc, why = "prologue-epilogue:callee-state:" + ",".join(sorted({b.rstrip("0123456789") for b in badregs})), f"not restored: {badregs}"
+                elif oc != outs[0][:5]:
+                    keyc, why = "prologue-epilogue:changes-results", "results or memory differ from the snippet without prologue/epilogue"
+                if keyc:
+                    res["violations"].append({"key": keyc, "summary": f"snippet seed={seed} args={iargs}: {why}",
+                                              "witness": {"snippet": text, "asm_plain": asm_a, "asm_with_prologue": asm_c,
+                                                          "iargs": iargs, "fargs": [repr(x) for x in fargs],
+                                                          "replay_job": {"kind": "snip", "seeds": [seed]}}})
+                    break
             if outs[0][0] == "bad":
                 C["snippet_baseline_bad_asm"] += 1   # the un-canonicalized snippet itself is ill-formed: not comparable
                 res["sets"].setdefault("snippet_baseline_bad", set()).add(outs[0][1])
